@@ -368,6 +368,38 @@ PER_ROW_SITES = {"FQA": 2, "AQUA": 2}      # batch routines with two N-sample ar
 TWIN_PROVED = {"Tilt", "SAAM"}       # vectorised N-sample arms compared with estimate() by TWIN.estimator
 
 
+def rmse_nan_twin(chk, prog):
+    """TWIN.nan: the one-dimensional and the row-wise arm of rmse treat missing (NaN) entries the same way: the same NaN-aware reduction in every return
+    (np.nanmean divides by the number of VALID entries; np.nansum(...)/N by the row length: the two agree only on rows without NaN, which the symbolic twin
+    comparison cannot tell apart)."""
+    f = prog.func("ahrs/utils/metrics.py::rmse")
+    chk.touch(f)
+    REDS = {"nanmean", "nansum", "mean", "sum", "average", "nanmedian", "median"}
+    defs = {s_.targets[0].id: s_.value for s_ in ast.walk(f.node) if isinstance(s_, ast.Assign) and len(s_.targets) == 1 and isinstance(s_.targets[0], ast.Name)}
+
+    def reds(e, depth=0):
+        out = set()
+        for x in ast.walk(e):
+            if isinstance(x, ast.Call) and ast.unparse(x.func).split(".")[-1] in REDS:
+                out.add(ast.unparse(x.func).split(".")[-1])
+            if isinstance(x, ast.Name) and x.id in defs and depth < 3:
+                out |= reds(defs[x.id], depth + 1)
+        return out
+    arms = [(r_, frozenset(reds(r_.value))) for r_ in ast.walk(f.node) if isinstance(r_, ast.Return) and r_.value is not None]
+    kinds = {k for _, k in arms}
+    site = f.ref + "::returns"
+    if len(arms) < 2:
+        chk.record("TWIN.nan", site, "a single return: nothing to compare")
+    elif len(kinds) == 1:
+        chk.record("TWIN.nan", site, "every arm reduces with %s" % sorted(next(iter(kinds))))
+    else:
+        a_, b_ = arms[0], next(x for x in arms if x[1] != arms[0][1])
+        why = "one arm of rmse reduces with %s, another with %s: on data with NaN entries the two normalise differently (valid count against full length), so a row of a batch " \
+              "and the same row given alone get different values" % (sorted(a_[1]), sorted(b_[1]))
+        chk.record("TWIN.nan", site, "the arms of rmse use the same NaN-aware reduction", verdict="VIOLATION", detail=why)
+        chk.finding("TWIN.nan", f.module.rel, f.qname, "different reductions in the arms of rmse", why, line=b_[0].lineno)
+
+
 def rowwise_rule(chk, prog):
     """ROWWISE: in every batch routine a per-sample call `self.estimate(...)` made inside a loop or comprehension over t takes row t of each data array
     (the loop variable itself as the index, no offset, no constant) and, in the loop form, stores the result in row t of the output"""
@@ -508,6 +540,7 @@ def run(chk, prog, tier):
     class_twins(chk, prog)
     dcm2quat_twins(chk, prog)
     from_dcm_arms(chk, prog, tier)
+    rmse_nan_twin(chk, prog)
     estimator_twins(chk, prog)
     from props.c18 import metric_twins
     metric_twins(chk, prog)
